@@ -594,6 +594,33 @@ func (fr *faultRun) exec() {
 		m := mode()
 		fr.observe("S11_very_long_token", fmt.Sprintf("%q with a %d x %q token", tmpl, k, unit), in, m, healthyDisk(f), "")
 	}
+	// S12: corner cases of the grammar where work or text could multiply or recurse:
+	// chained multipliers, constants defined from themselves / each other / later ones,
+	// nested poryswitch, format() with extreme numbers
+	{
+		n1 := []string{"9999", "0x270F", "10000", "1", "0", "-1", "2", "99999999999999999999"}[fr2.Intn(8)]
+		n2 := []string{"9999", "1000", "2", "0x270F"}[fr2.Intn(4)]
+		corner := []string{
+			"movement M { a * " + n1 + " * " + n2 + " * 9999 }",
+			"script S { x(moves(a * " + n1 + " * " + n2 + ")) }",
+			"movement M { a * " + n1 + " b * " + n2 + " * }",
+			"const A = A script S { x(A) if (var(A) == A) { y(A) } }",
+			"const A = B const B = A mart M { A B } script S { x(A, B) }",
+			"const A = B const B = C const C = A mapscripts M { T [ A, B: S ] }",
+			"const A = A A const B = A A script S { switch (var(A)) { case B: x } }",
+			"const A = x x x x x x x x const B = A A A A A A A A const C = B B B B B B B B const D = C C C C C C C C script S { y(D) }",
+			"script S { poryswitch(A) { _: poryswitch(A) { _: poryswitch(A) { _: poryswitch(A) { _: x } } } } }",
+			"text T { format(\"a b c d e f g h i j k l m n o p q r s t u v w x y z\", " + n1 + ", numLines=" + n2 + ") }",
+			"text T { format(\"a b c d e f\", maxLineLength=" + n1 + ", cursorOverlapWidth=" + n2 + ", numLines=" + n1 + ") }",
+			"script S { x(format(\"aaaa bbbb cccc\", \"TEST\", " + n1 + ")) }",
+			"mart M { poryswitch(A) { _ { poryswitch(A) { _ { I } } } } }",
+			"movement M { poryswitch(A) { _: a * " + n1 + " } poryswitch(A) { _ { b * " + n2 + " } } }",
+			"script S { switch (var(A)) { case " + n1 + ": case " + n2 + ": case -" + n2 + ": x } }",
+			"script S { if (var(A) > value(" + n1 + " * (" + n2 + " + (1)))) { x } }",
+		}[fr2.Intn(16)]
+		m := mode()
+		fr.observe("S12_grammar_corner_case", corner, corner, m, healthyDisk(f), "")
+	}
 	// E: environment faults on the well-formed program
 	fj := f.Fonts.JSON()
 	for n := 0; n < 8; n++ {
